@@ -1,6 +1,7 @@
 package litefs
 
 import (
+	"bytes"
 	"context"
 	"encoding/binary"
 	"fmt"
@@ -120,10 +121,8 @@ func (f *LTXStreamFrame) ReadFrom(r io.Reader) (int64, error) {
 		return 0, err
 	}
 
-	name := make([]byte, nameN)
-	if _, err := io.ReadFull(r, name); err == io.EOF {
-		return 0, io.ErrUnexpectedEOF
-	} else if err != nil {
+	name, err := readBytesN(r, nameN)
+	if err != nil {
 		return 0, err
 	}
 	f.Name = string(name)
@@ -173,10 +172,8 @@ func (f *DropDBStreamFrame) ReadFrom(r io.Reader) (int64, error) {
 		return 0, err
 	}
 
-	name := make([]byte, nameN)
-	if _, err := io.ReadFull(r, name); err == io.EOF {
-		return 0, io.ErrUnexpectedEOF
-	} else if err != nil {
+	name, err := readBytesN(r, nameN)
+	if err != nil {
 		return 0, err
 	}
 	f.Name = string(name)
@@ -208,10 +205,8 @@ func (f *HandoffStreamFrame) ReadFrom(r io.Reader) (int64, error) {
 		return 0, err
 	}
 
-	leaseID := make([]byte, n)
-	if _, err := io.ReadFull(r, leaseID); err == io.EOF {
-		return 0, io.ErrUnexpectedEOF
-	} else if err != nil {
+	leaseID, err := readBytesN(r, n)
+	if err != nil {
 		return 0, err
 	}
 	f.LeaseID = string(leaseID)
@@ -253,10 +248,8 @@ func (f *HWMStreamFrame) ReadFrom(r io.Reader) (int64, error) {
 		return 0, err
 	}
 
-	name := make([]byte, nameN)
-	if _, err := io.ReadFull(r, name); err == io.EOF {
-		return 0, io.ErrUnexpectedEOF
-	} else if err != nil {
+	name, err := readBytesN(r, nameN)
+	if err != nil {
 		return 0, err
 	}
 	f.Name = string(name)
@@ -301,4 +294,17 @@ func (f *HeartbeatStreamFrame) WriteTo(w io.Writer) (int64, error) {
 	}
 
 	return 0, nil
+}
+
+// readBytesN reads exactly n bytes from r. The length comes off the wire, so
+// the buffer grows with the data actually received instead of being allocated
+// up front. Returns io.ErrUnexpectedEOF if r ends early.
+func readBytesN(r io.Reader, n uint32) ([]byte, error) {
+	var buf bytes.Buffer
+	if m, err := io.CopyN(&buf, r, int64(n)); err == io.EOF || (err == nil && m < int64(n)) {
+		return nil, io.ErrUnexpectedEOF
+	} else if err != nil {
+		return nil, err
+	}
+	return buf.Bytes(), nil
 }
